@@ -2,7 +2,7 @@
    Statement, theorem (closed by [exact]), Print Assumptions, non-vacuity. *)
 From Model Require Import Str Sexp Http Template Table Curly DetectRoute Jsr311 Router.
 From Spec Require Import RouteSpec.
-From Proofs Require Import RouterProofs.
+From Proofs Require Import RouterProofs JsrProofs.
 
 (* CurlyRouter (the default router).  For every regex oracle, table, request:
    if dispatch invokes the function of route r of service w, then w and r are
@@ -50,3 +50,24 @@ Example C01_example :
   /\ (match route_request O t (rq "/users/files/a/b"%string) with RInvoke _ r ps => r_id r | _ => 0%Z end) = 3%Z
   /\ (match route_request O t (rq "/users/bob"%string) with RError E404 => true | _ => false end) = true.
 Proof. vm_compute. repeat split; reflexivity. Qed.
+
+(* RouterJSR311.  For every regex oracle, table and request: if SelectRoute returns route r of service w then
+   both are registered and the request is admitted by r's declaration in RouterJSR311's reading (method, every
+   segment of root + route template: literal equal, plain variable non-empty, regex variable matched entirely,
+   tail wildcard last; one trailing slash tolerated; Consumes, Produces, conditions) — provided the expressions
+   compiled from the two templates are their structural reading token by token ([jsr_tokens_agree], a boolean that
+   holds for the documented forms and is evaluated on every generated case). *)
+Definition C01_jsr_statement : Prop :=
+  forall (O : oracles) (t : table) (req : request) (w : service) (r : route),
+    t_router t = Jsr311 -> select_route O t req = inl (w, r) -> jsr_tokens_agree w r = true ->
+    In w (t_services t) /\ In r (s_routes w) /\ jsr_admits O w r req = true.
+Theorem C01_jsr : C01_jsr_statement.
+Proof. exact jsr_select_route_sound. Qed.
+Print Assumptions C01_jsr.
+
+Example C01_jsr_example :
+  let w := {| s_root := L "/users/{id:[0-9]+}"; s_routes := [] |} in
+  let r := {| r_id := 1; r_method := L "GET"; r_rel := L "/files/{rest:*}"; r_consumes := []; r_produces := [];
+              r_conds := []; r_noct := []; r_enc := None |} in
+  jsr_tokens_agree w r = true.
+Proof. reflexivity. Qed.
